@@ -47,12 +47,16 @@ def gen(cs, rnd, n, fifo_share=0.3):
             tail.append(v)
         vals = prefix + tail
         data, ends = b"", []
+        # values need not sit on lines of their own: blanks, tabs or nothing at all (between containers) separate them just as well
+        sep = rnd.choice([b"\n", b"\n", b" ", b"\t", b"\r\n", b"  ", b""])
+        if sep == b"" and any(v[0] not in ("obj", "arr") for v in vals):
+            sep = b" "
         for v in vals:
             data += PL.G.canonical(v)
             ends.append(len(data))
-            data += b"\n"
+            data += sep
         # the endless continuation repeats the last value; with --unique repeats are dropped, so the tail itself must suffice (it does: need+6 values)
-        cyc = PL.G.canonical(tail[-1] if not cfg["unique"] else tail[-1]) + b"\n"
+        cyc = PL.G.canonical(tail[-1] if not cfg["unique"] else tail[-1]) + sep
         use_fifo = rnd.random() < fifo_share
         run = {"argv": PL.cfg_argv(cfg, rnd), "stdin": hexs(data), "cycle": hexs(cyc), "cap": 4 << 20, "timeout_ms": 30000}
         if use_fifo:
